@@ -55,6 +55,9 @@ var c05Regions = []c05Region{
 	{"xpcall", func(id int, body string) string {
 		return fmt.Sprintf(`local ok%[1]d, v%[1]d snap("b%[1]d") emit("enter", %[1]d) ok%[1]d, v%[1]d = xpcall(function() emit("in", %[1]d) %[2]s emit("out", %[1]d) return "ret%[1]d" end, function(e) emit("hstart", %[1]d) hdepth(%[1]d) emit("hend", %[1]d) return "handled%[1]d" end) emit("exit", %[1]d, ok%[1]d, v%[1]d) snap("a%[1]d")`, id, body)
 	}},
+	{"xpcall-herr", func(id int, body string) string {
+		return fmt.Sprintf(`local ok%[1]d, v%[1]d snap("b%[1]d") emit("enter", %[1]d) ok%[1]d, v%[1]d = xpcall(function() emit("in", %[1]d) %[2]s emit("out", %[1]d) return "ret%[1]d" end, function(e) emit("hstart", %[1]d) hdepth(%[1]d) local hbad = nilv + 1 emit("hend", %[1]d) return "handled%[1]d" end) emit("exit", %[1]d, ok%[1]d, v%[1]d) snap("a%[1]d")`, id, body)
+	}},
 	{"gopcall", func(id int, body string) string {
 		return fmt.Sprintf(`local ok%[1]d, v%[1]d snap("b%[1]d") emit("enter", %[1]d) ok%[1]d, v%[1]d = gopcall(function() emit("in", %[1]d) %[2]s emit("out", %[1]d) return "ret%[1]d" end) emit("exit", %[1]d, ok%[1]d, v%[1]d) snap("a%[1]d")`, id, body)
 	}},
@@ -69,7 +72,8 @@ var c05Regions = []c05Region{
 	}},
 }
 
-const c05Prelude = `local s1, s2, keep = "s1", {}, {}
+const c05Prelude = `local nilv = nil
+local s1, s2, keep = "s1", {}, {}
 local up = "u"
 local bigt = {} for i = 1, 120 do bigt[i] = i end
 emit("ids", s2, keep, bigt)
@@ -234,6 +238,10 @@ func c05Expected(base []c05Ev, cut int, regionKind map[int]string) (cands []c05C
 		if regionKind[r] == "xpcall" && !inHandler[r] {
 			want = append(want, c05Want{ev: c05Ev{Kind: "emit", Args: []string{"s:hstart", fmt.Sprintf("n:%d", r)}}, wildFrom: -1})
 			want = append(want, c05Want{ev: c05Ev{Kind: "emit", Args: []string{"s:hend", fmt.Sprintf("n:%d", r)}}, wildFrom: -1})
+		}
+		if regionKind[r] == "xpcall-herr" && !inHandler[r] {
+			// the handler starts and fails itself: no "hend"
+			want = append(want, c05Want{ev: c05Ev{Kind: "emit", Args: []string{"s:hstart", fmt.Sprintf("n:%d", r)}}, wildFrom: -1})
 		}
 		ex := base[exitIdx]
 		ne := c05Ev{Kind: "emit", Args: append([]string{}, ex.Args...)}
@@ -486,6 +494,8 @@ func runC05(r *harness.Run) {
 		kinds := map[int]string{}
 		for id := 1; id <= 3; id++ {
 			switch {
+			case strings.Contains(p.src, fmt.Sprintf("ok%[1]d, v%[1]d = xpcall(", id)) && strings.Contains(p.src, fmt.Sprintf(`hdepth(%d) local hbad`, id)):
+				kinds[id] = "xpcall-herr"
 			case strings.Contains(p.src, fmt.Sprintf("ok%[1]d, v%[1]d = xpcall(", id)):
 				kinds[id] = "xpcall"
 			case strings.Contains(p.src, fmt.Sprintf("ok%[1]d, v%[1]d = coroutine.resume(", id)):
@@ -534,6 +544,8 @@ func runC05(r *harness.Run) {
 				if id, ok := evIs(e, "exit"); ok && id == region && len(e.Args) >= 4 && e.Args[2] == "false" {
 					v := e.Args[3]
 					switch {
+					case kinds[region] == "xpcall-herr":
+						// an error in the error handler: the value is not fixed by the property
 					case kinds[region] == "xpcall":
 						if v != fmt.Sprintf("s:handled%d", region) {
 							return "xpcall-result", fmt.Sprintf("xpcall returned %s instead of its handler's result", v)
@@ -571,7 +583,7 @@ func runC05(r *harness.Run) {
 					}
 				}
 			}
-			if kinds[region] == "xpcall" {
+			if kinds[region] == "xpcall" || kinds[region] == "xpcall-herr" {
 				var entrySp int
 				for _, n := range fr.notes {
 					if strings.HasPrefix(n, fmt.Sprintf("b%d ", region)) {
@@ -754,6 +766,9 @@ func genErrVal(thorough bool) Gen {
 			mk   func() []Expr
 		}{
 			{"string", func() []Expr { return []Expr{Str("msg")} }},
+			{"string-percent", func() []Expr { return []Expr{Str("100%d of %s, 50%")} }},
+			{"string-percent-l0", func() []Expr { return []Expr{Str("%d%%"), Num(0)} }},
+			{"string-percent-l2", func() []Expr { return []Expr{Str("rate %5.2f%"), Num(2)} }},
 			{"string-l0", func() []Expr { return []Expr{Str("msg"), Num(0)} }},
 			{"string-l1", func() []Expr { return []Expr{Str("msg"), Num(1)} }},
 			{"string-l2", func() []Expr { return []Expr{Str("msg"), Num(2)} }},
